@@ -436,7 +436,9 @@ def gen_pdb(rng, entry=None, natoms=None):
     no, spelling, _ = entry if entry is not None else rng.choice(table)
     group = sg.sg(sgno=no)
     cell, _ = gens.cell(rng, kind=rng.choice(['ortho', 'near', 'random']), dmin=0.1)
-    cell = [round(cell[0] * rng.choice([1, 4]), 3), round(cell[1] * rng.choice([1, 4]), 3), round(cell[2] * rng.choice([1, 4]), 3),
+    # protein to virus-capsid sized cells: edges up to ~1000 A, volumes 10 .. 1e9 A^3 (a threshold on det(SCALE) = 1/V shows at the far end)
+    big = [1, 1, 4, 4, 15, 40] if rng.random() < 0.35 else [1, 4]
+    cell = [round(cell[0] * rng.choice(big), 3), round(cell[1] * rng.choice(big), 3), round(cell[2] * rng.choice(big), 3),
             round(cell[3], 2), round(cell[4], 2), round(cell[5], 2)]
     A = orth_matrix(cell)
     S = np.linalg.inv(A)
